@@ -13,8 +13,10 @@ import (
 	"sort"
 	"strconv"
 	"strings"
+	"sync"
 	"time"
 
+	"golang.org/x/tools/go/packages"
 	"golang.org/x/tools/go/ssa"
 
 	"verif/engine/sym"
@@ -37,12 +39,14 @@ type Harness struct {
 	MaxPaths    map[string]int            `json:"max_paths"`
 	MaxSteps    map[string]int            `json:"max_steps"`
 	TimeoutMs   map[string]int            `json:"solver_timeout_ms"`
+	Jobs        map[string]int            `json:"jobs"`
 	Assumptions []string                  `json:"assumptions"`
 	Stubs       []string                  `json:"stubs"`
 	Outside     []string                  `json:"outside"`
 	Encoded     []string                  `json:"encoded"`
 	SkipInit    []string                  `json:"skip_init"`
 	NoValidate  bool                      `json:"no_validate"`
+	NoMerge     bool                      `json:"no_merge"`
 	ExtraFiles  map[string]string         `json:"extra_files"` // repo-relative path → harness-dir file
 }
 
@@ -59,12 +63,14 @@ func main() {
 	os.Setenv("GOSUMDB", "off")
 	os.Setenv("GOTOOLCHAIN", "local")
 	if len(os.Args) < 2 {
-		fmt.Fprintln(os.Stderr, "usage: symgo run|replay ...")
+		fmt.Fprintln(os.Stderr, "usage: symgo run|worker|replay|intenc ...")
 		os.Exit(2)
 	}
 	switch os.Args[1] {
 	case "run":
 		os.Exit(cmdRun(os.Args[2:]))
+	case "worker":
+		os.Exit(cmdWorker(os.Args[2:]))
 	case "replay":
 		os.Exit(cmdReplay(os.Args[2:]))
 	case "intenc":
@@ -136,109 +142,319 @@ func buildOverlay(verif, repo string, h *Harness, hdir string) (map[string][]byt
 	return ov, paths, nil
 }
 
-func cmdRun(args []string) int {
-	fs := flag.NewFlagSet("run", flag.ExitOnError)
-	id := fs.String("id", "", "property id")
-	tier := fs.String("tier", "quick", "quick|thorough")
-	verif := fs.String("verif", "/verif", "verification root")
-	repo := fs.String("repo", repoDefault, "repository root")
-	only := fs.String("entry", "", "run only this entry")
-	verbose := fs.Bool("v", false, "verbose")
-	trace := fs.Bool("trace", false, "trace instructions")
-	noReplay := fs.Bool("noreplay", false, "skip native replay/validation")
-	noMerge := fs.Bool("nomerge", false, "disable region merging")
-	solverName := fs.String("solver", "z3", "z3|z3-new|cvc5")
-	fs.Parse(args)
-	start := time.Now()
-	hdir := filepath.Join(*verif, "harness", *id)
-	var h Harness
-	buf, err := os.ReadFile(filepath.Join(hdir, "harness.json"))
+// session is a loaded harness with its program, solver and machine.
+type session struct {
+	verif, repo, hdir, tier string
+	h                       Harness
+	ovPaths                 map[string]string
+	prog                    *ssa.Program
+	initial                 []*packages.Package
+	solver                  *sym.Solver
+	m                       *sym.Machine
+	cfg                     sym.Config
+	loadS                   float64
+	seed                    int
+}
+
+type commonFlags struct {
+	id, tier, verif, repo, solver *string
+	noMerge, verbose, trace       *bool
+}
+
+func addCommon(fs *flag.FlagSet) *commonFlags {
+	return &commonFlags{
+		id:      fs.String("id", "", "property id"),
+		tier:    fs.String("tier", "quick", "quick|thorough"),
+		verif:   fs.String("verif", "/verif", "verification root"),
+		repo:    fs.String("repo", repoDefault, "repository root"),
+		solver:  fs.String("solver", "portfolio", "portfolio|z3|z3-new|cvc5"),
+		noMerge: fs.Bool("nomerge", false, "disable region merging"),
+		verbose: fs.Bool("v", false, "verbose"),
+		trace:   fs.Bool("trace", false, "trace instructions"),
+	}
+}
+
+func open(cf *commonFlags) (*session, error) {
+	s := &session{verif: *cf.verif, repo: *cf.repo, tier: *cf.tier}
+	s.hdir = filepath.Join(s.verif, "harness", *cf.id)
+	buf, err := os.ReadFile(filepath.Join(s.hdir, "harness.json"))
 	if err != nil {
-		fmt.Println("ENGINE-ERROR:", err)
-		return 2
+		return nil, err
 	}
-	if err := json.Unmarshal(buf, &h); err != nil {
-		fmt.Println("ENGINE-ERROR: harness.json:", err)
-		return 2
+	if err := json.Unmarshal(buf, &s.h); err != nil {
+		return nil, fmt.Errorf("harness.json: %v", err)
 	}
-	seed := 0
-	if s := os.Getenv("VERIF_SEED"); s != "" {
-		seed, _ = strconv.Atoi(s)
+	if v := os.Getenv("VERIF_SEED"); v != "" {
+		s.seed, _ = strconv.Atoi(v)
 	}
-	ov, ovPaths, err := buildOverlay(*verif, *repo, &h, hdir)
+	ov, ovPaths, err := buildOverlay(s.verif, s.repo, &s.h, s.hdir)
 	if err != nil {
-		fmt.Println("ENGINE-ERROR:", err)
-		return 2
+		return nil, err
 	}
+	s.ovPaths = ovPaths
 	var patterns []string
-	for _, u := range h.Units {
+	for _, u := range s.h.Units {
 		patterns = append(patterns, "./"+u.Dir)
 	}
 	tLoad := time.Now()
-	prog, _, initial, err := sym.Load(*repo, ov, patterns, nil)
+	prog, _, initial, err := sym.Load(s.repo, ov, patterns, nil)
 	if err != nil {
-		fmt.Println("ENGINE-ERROR: harness does not load against /repo:", err)
-		writeEvidence(*verif, &h, *tier, seed, nil, nil, time.Since(start).Seconds(), []string{"load error: " + err.Error()}, 0, nil)
-		return 2
+		return s, fmt.Errorf("harness does not load against /repo: %v", err)
 	}
-	loadS := time.Since(tLoad).Seconds()
+	s.prog, s.initial = prog, initial
+	s.loadS = time.Since(tLoad).Seconds()
 	timeout := 20000
-	if *tier == "thorough" {
+	if s.tier == "thorough" {
 		timeout = 120000
 	}
-	if t, ok := h.TimeoutMs[*tier]; ok {
+	if t, ok := s.h.TimeoutMs[s.tier]; ok {
 		timeout = t
 	}
-	solver, err := sym.NewSolver(*solverName, timeout)
+	if *cf.solver == "portfolio" {
+		s.solver, err = sym.NewPortfolio(timeout)
+	} else {
+		s.solver, err = sym.NewSolver(*cf.solver, timeout)
+	}
 	if err != nil {
-		fmt.Println("ENGINE-ERROR:", err)
+		return s, err
+	}
+	s.cfg = sym.Config{Bounds: s.h.Bounds[s.tier], Tier: s.tier, Verbose: *cf.verbose, Trace: *cf.trace}
+	if n, ok := s.h.MaxPaths[s.tier]; ok {
+		s.cfg.MaxPaths = n
+	}
+	if n, ok := s.h.MaxSteps[s.tier]; ok {
+		s.cfg.MaxSteps = n
+	}
+	s.m = sym.NewMachine(prog, s.solver, s.cfg)
+	s.m.SetNoMerge(*cf.noMerge || s.h.NoMerge)
+	for _, p := range s.h.SkipInit {
+		s.m.SkipInit(p)
+	}
+	return s, nil
+}
+
+func (s *session) entryFn(u *Unit, e string) (*ssa.Function, error) {
+	for _, ip := range s.initial {
+		if ip.PkgPath == modPath+"/"+u.Dir {
+			sp := s.prog.Package(ip.Types)
+			if sp == nil {
+				break
+			}
+			if fn := sp.Func(e); fn != nil {
+				return fn, nil
+			}
+			return nil, fmt.Errorf("entry %s not found in %s", e, u.Dir)
+		}
+	}
+	return nil, fmt.Errorf("package not loaded: %s", u.Dir)
+}
+
+func (s *session) unitOfEntry(e string) *Unit {
+	for ui := range s.h.Units {
+		u := &s.h.Units[ui]
+		for _, x := range u.Entries {
+			if x == e {
+				return u
+			}
+		}
+		for _, x := range u.ThoroughEntries {
+			if x == e {
+				return u
+			}
+		}
+	}
+	return nil
+}
+
+// workerOut is what a worker process writes.
+type workerOut struct {
+	Raw    *sym.Raw
+	Stats  *sym.Stats
+	Solver sym.SolverStats
+	Error  string
+}
+
+func cmdWorker(args []string) int {
+	fs := flag.NewFlagSet("worker", flag.ExitOnError)
+	cf := addCommon(fs)
+	entry := fs.String("entry", "", "entry")
+	prefixes := fs.String("prefixes", "", "prefix file")
+	shard := fs.Int("shard", 0, "shard index")
+	of := fs.Int("of", 1, "shard count")
+	out := fs.String("out", "", "output file")
+	fs.Parse(args)
+	wo := &workerOut{}
+	defer func() {
+		b, _ := json.Marshal(wo)
+		os.WriteFile(*out, b, 0o644)
+	}()
+	s, err := open(cf)
+	if err != nil {
+		wo.Error = err.Error()
 		return 2
 	}
-	defer solver.Close()
-	cfg := sym.Config{Bounds: h.Bounds[*tier], Tier: *tier, Verbose: *verbose, Trace: *trace}
-	if n, ok := h.MaxPaths[*tier]; ok {
-		cfg.MaxPaths = n
+	defer s.solver.Close()
+	u := s.unitOfEntry(*entry)
+	if u == nil {
+		wo.Error = "no unit for entry " + *entry
+		return 2
 	}
-	if n, ok := h.MaxSteps[*tier]; ok {
-		cfg.MaxSteps = n
+	fn, err := s.entryFn(u, *entry)
+	if err != nil {
+		wo.Error = err.Error()
+		return 2
 	}
-	m := sym.NewMachine(prog, solver, cfg)
-	m.SetNoMerge(*noMerge)
-	for _, p := range h.SkipInit {
-		m.SkipInit(p)
+	var all [][]int64
+	b, err := os.ReadFile(*prefixes)
+	if err != nil {
+		wo.Error = err.Error()
+		return 2
+	}
+	json.Unmarshal(b, &all)
+	var mine [][]int64
+	for i, p := range all {
+		if i%*of == *shard {
+			if p == nil {
+				p = []int64{}
+			}
+			mine = append(mine, p)
+		}
+	}
+	if len(mine) == 0 {
+		wo.Raw = &sym.Raw{Entry: *entry, PathEnds: map[string]int{}, Inconc: map[string]int{}}
+		wo.Stats = s.m.St
+		return 0
+	}
+	wo.Raw = s.m.Explore(fn, mine, 0)
+	wo.Stats = s.m.St
+	wo.Solver = s.solver.Stats()
+	return 0
+}
+
+func (s *session) runWorkers(cf *commonFlags, entry string, pending [][]int64, jobs int) ([]*workerOut, error) {
+	work := filepath.Join(s.verif, ".work", s.h.Property, "workers")
+	os.MkdirAll(work, 0o755)
+	pf := filepath.Join(work, entry+".prefixes.json")
+	b, _ := json.Marshal(pending)
+	if err := os.WriteFile(pf, b, 0o644); err != nil {
+		return nil, err
+	}
+	outs := make([]*workerOut, jobs)
+	errs := make([]error, jobs)
+	var wg sync.WaitGroup
+	self, _ := os.Executable()
+	for i := 0; i < jobs; i++ {
+		wg.Add(1)
+		go func(i int) {
+			defer wg.Done()
+			of := filepath.Join(work, fmt.Sprintf("%s.out.%d.json", entry, i))
+			os.Remove(of)
+			args := []string{"worker", "-id", *cf.id, "-tier", s.tier, "-verif", s.verif, "-repo", s.repo, "-solver", *cf.solver,
+				"-entry", entry, "-prefixes", pf, "-shard", strconv.Itoa(i), "-of", strconv.Itoa(jobs), "-out", of}
+			if *cf.noMerge {
+				args = append(args, "-nomerge")
+			}
+			cmd := exec.Command(self, args...)
+			cmd.Stderr = os.Stderr
+			cmd.Run()
+			ob, err := os.ReadFile(of)
+			if err != nil {
+				errs[i] = fmt.Errorf("worker %d produced no output", i)
+				return
+			}
+			var wo workerOut
+			if err := json.Unmarshal(ob, &wo); err != nil {
+				errs[i] = err
+				return
+			}
+			if wo.Error != "" {
+				errs[i] = fmt.Errorf("worker %d: %s", i, wo.Error)
+				return
+			}
+			outs[i] = &wo
+		}(i)
+	}
+	wg.Wait()
+	for _, e := range errs {
+		if e != nil {
+			return nil, e
+		}
+	}
+	return outs, nil
+}
+
+func cmdRun(args []string) int {
+	fs := flag.NewFlagSet("run", flag.ExitOnError)
+	cf := addCommon(fs)
+	only := fs.String("entry", "", "run only this entry")
+	noReplay := fs.Bool("noreplay", false, "skip native replay/validation")
+	jobsFlag := fs.Int("j", 0, "worker processes (0 = from harness.json / VERIF_JOBS / 8)")
+	fs.Parse(args)
+	start := time.Now()
+	s, err := open(cf)
+	if err != nil {
+		fmt.Println("ENGINE-ERROR:", err)
+		if s != nil {
+			writeEvidence(s, nil, time.Since(start).Seconds(), []string{"load error: " + err.Error()}, 0, nil)
+		}
+		return 2
+	}
+	defer s.solver.Close()
+	h, m, solver := &s.h, s.m, s.solver
+	jobs := 8
+	if v := os.Getenv("VERIF_JOBS"); v != "" {
+		jobs, _ = strconv.Atoi(v)
+	}
+	if n, ok := h.Jobs[s.tier]; ok {
+		jobs = n
+	}
+	if *jobsFlag > 0 {
+		jobs = *jobsFlag
 	}
 	var results []*sym.EntryResult
 	unitOf := map[string]*Unit{}
 	var inconclusive []string
+	var engineErrors []string
 	for ui := range h.Units {
 		u := &h.Units[ui]
-		var spkg *ssa.Package
-		for _, ip := range initial {
-			if ip.PkgPath == modPath+"/"+u.Dir {
-				spkg = prog.Package(ip.Types)
-			}
-		}
-		if spkg == nil {
-			fmt.Println("ENGINE-ERROR: package not loaded:", u.Dir)
-			return 2
-		}
 		entries := append([]string{}, u.Entries...)
-		if *tier == "thorough" {
+		if s.tier == "thorough" {
 			entries = append(entries, u.ThoroughEntries...)
 		}
 		for _, e := range entries {
 			if *only != "" && e != *only {
 				continue
 			}
-			fn := spkg.Func(e)
-			if fn == nil {
-				fmt.Printf("ENGINE-ERROR: entry %s not found in %s\n", e, u.Dir)
+			fn, err := s.entryFn(u, e)
+			if err != nil {
+				fmt.Println("ENGINE-ERROR:", err)
 				return 2
 			}
 			unitOf[e] = u
-			r := m.RunEntry(fn)
+			t0 := time.Now()
+			splitAt := 0
+			if jobs > 1 {
+				splitAt = jobs * 6
+			}
+			raw := m.Explore(fn, nil, splitAt)
+			workers := 0
+			if len(raw.Pending) > 0 {
+				outs, err := s.runWorkers(cf, e, raw.Pending, jobs)
+				if err != nil {
+					engineErrors = append(engineErrors, err.Error())
+				} else {
+					for _, wo := range outs {
+						sym.MergeRaw(raw, wo.Raw)
+						m.St.Merge(wo.Stats)
+						solver.AddStats(wo.Solver)
+						workers++
+					}
+				}
+			}
+			r := m.Finalize(fn, raw, time.Since(t0).Seconds())
+			r.Workers = workers
 			results = append(results, r)
-			fmt.Printf("entry %-40s paths=%-6d ends=%v violations=%d %.1fs\n", e, r.Paths, r.PathEnds, len(r.Violations), r.Seconds)
+			fmt.Printf("entry %-40s paths=%-6d ends=%v violations=%d workers=%d %.1fs\n", e, r.Paths, r.PathEnds, len(r.Violations), workers, r.Seconds)
 			for _, inc := range r.Inconclusive {
 				inconclusive = append(inconclusive, e+": "+inc)
 			}
@@ -246,7 +462,6 @@ func cmdRun(args []string) int {
 	}
 	// ---- native replay of violations, native validation of cover samples
 	validated := 0
-	var engineErrors []string
 	if !*noReplay {
 		byUnit := map[*Unit][]replayCase{}
 		for _, r := range results {
@@ -276,7 +491,7 @@ func cmdRun(args []string) int {
 			if len(cases) == 0 {
 				continue
 			}
-			outs, err := runNative(*verif, *repo, &h, u, ovPaths, cases, cfg.Bounds)
+			outs, err := runNative(s.verif, s.repo, h, u, s.ovPaths, cases, s.cfg.Bounds)
 			if err != nil {
 				engineErrors = append(engineErrors, "native replay failed: "+err.Error())
 				continue
@@ -302,10 +517,9 @@ func cmdRun(args []string) int {
 		}
 	}
 	// ---- verdict
-	knownList := loadKnown(filepath.Join(*verif, "known_findings.txt"))
+	knownList := loadKnown(filepath.Join(s.verif, "known_findings.txt"))
 	exit := 0
-	nviol := 0
-	os.MkdirAll(filepath.Join(*verif, "evidence", "replay", h.Property), 0o755)
+	os.MkdirAll(filepath.Join(s.verif, "evidence", "replay", h.Property), 0o755)
 	for _, r := range results {
 		for i, v := range r.Violations {
 			if *noReplay {
@@ -314,7 +528,7 @@ func cmdRun(args []string) int {
 				continue
 			}
 			if !v.Reproduced {
-				fmt.Printf("INCONCLUSIVE property=%s model for %s did not reproduce natively (%s)\n", h.Property, v.Key, truncate(v.Obs, 200))
+				fmt.Printf("INCONCLUSIVE property=%s model for %s did not reproduce natively (%s) inputs=%v\n", h.Property, v.Key, truncate(v.Obs, 200), v.Inputs)
 				inconclusive = append(inconclusive, "model did not reproduce natively: "+v.Key)
 				continue
 			}
@@ -328,12 +542,11 @@ func cmdRun(args []string) int {
 			if isKnown {
 				continue
 			}
-			rp := filepath.Join(*verif, "evidence", "replay", h.Property, fmt.Sprintf("%s-%d.json", r.Entry, i))
-			writeReplayFile(rp, h.Property, cfg.Bounds, []replayCase{{entry: r.Entry, inputs: v.Inputs, viol: v}})
+			rp := filepath.Join(s.verif, "evidence", "replay", h.Property, fmt.Sprintf("%s-%d.json", r.Entry, i))
+			writeReplayFile(rp, h.Property, s.cfg.Bounds, []replayCase{{entry: r.Entry, inputs: v.Inputs, viol: v}})
 			v.ReplayFile = rp
 			fmt.Printf("VIOLATION property=%s replay=%s\n", h.Property, rp)
-			fmt.Printf("  %s %s: %s at %s\n  inputs: %v\n  native: %s\n", v.Kind, r.Entry, v.Label, v.Where, v.Inputs, truncate(v.Obs, 400))
-			nviol++
+			fmt.Printf("  key=%s\n  %s %s: %s at %s\n  inputs: %v\n  native: %s\n", v.Key, v.Kind, r.Entry, v.Label, v.Where, v.Inputs, truncate(v.Obs, 400))
 			exit = 1
 		}
 	}
@@ -350,11 +563,10 @@ func cmdRun(args []string) int {
 	if exit == 0 && (len(inconclusive) > 0 || len(engineErrors) > 0) {
 		exit = 2
 	}
-	extra := map[string]interface{}{"load_s": loadS, "engine_errors": engineErrors}
-	writeEvidence(*verif, &h, *tier, seed, m, results, time.Since(start).Seconds(), inconclusive, validated, extra)
-	fmt.Printf("%s %s: entries=%d paths=%d queries(sat=%d unsat=%d unknown=%d cached=%d) solver=%.1fs merged=%d wall=%.1fs exit=%d\n",
-		h.Property, *tier, len(results), m.St.Paths, solver.NSat, solver.NUnsat, solver.NUnknown, solver.NCacheHit, solver.Seconds, m.St.Merged, time.Since(start).Seconds(), exit)
-	_ = nviol
+	extra := map[string]interface{}{"load_s": s.loadS, "engine_errors": engineErrors, "worker_processes": jobs}
+	writeEvidence(s, results, time.Since(start).Seconds(), inconclusive, validated, extra)
+	fmt.Printf("%s %s: entries=%d paths=%d queries(sat=%d unsat=%d unknown=%d cached=%d fallback=%d) solver=%.1fs merged=%d validated=%d wall=%.1fs exit=%d\n",
+		h.Property, s.tier, len(results), m.St.Paths, solver.NSat, solver.NUnsat, solver.NUnknown, solver.NCacheHit, solver.NFallback, solver.Seconds, m.St.Merged, validated, time.Since(start).Seconds(), exit)
 	return exit
 }
 
@@ -412,7 +624,6 @@ func runNative(verif, repo string, h *Harness, u *Unit, ovPaths map[string]strin
 	if err := writeReplayFile(rf, h.Property, bounds, cases); err != nil {
 		return nil, err
 	}
-	// generate the test file
 	pkgName, err := packageName(filepath.Join(repo, u.Dir))
 	if err != nil {
 		return nil, err
@@ -442,7 +653,7 @@ func runNative(verif, repo string, h *Harness, u *Unit, ovPaths map[string]strin
 	cmd := exec.Command("go", "test", "-vet=off", "-count=1", "-run", "^TestVerifReplay$", "-v", "-timeout", "10m", "-overlay", ovf, "./"+u.Dir)
 	cmd.Dir = repo
 	cmd.Env = append(sym.GoEnv(), "VERIF_REPLAY_FILE="+rf)
-	out, runErr := cmd.CombinedOutput()
+	out, _ := cmd.CombinedOutput()
 	res := make([]string, len(cases))
 	re := regexp.MustCompile(`(?m)^VERIF-RESULT case=(\d+) entry=\S+ outcome=(.*)$`)
 	found := 0
@@ -454,23 +665,27 @@ func runNative(verif, repo string, h *Harness, u *Unit, ovPaths map[string]strin
 		}
 	}
 	if found < len(cases) {
-		// the process died (fatal error, os.Exit, timeout) in the first case without a result
+		if strings.Contains(string(out), "[build failed]") || strings.Contains(string(out), "[setup failed]") {
+			return nil, fmt.Errorf("native build failed:\n%s", truncate(string(out), 3000))
+		}
+		// the process died (fatal error, os.Exit, timeout) in the first case without a result;
+		// re-run the remaining cases so each gets its own verdict
+		first := -1
 		for i := range res {
 			if res[i] == "" {
-				if strings.Contains(string(out), "[build failed]") || strings.Contains(string(out), "[setup failed]") {
-					return nil, fmt.Errorf("native build failed:\n%s", truncate(string(out), 3000))
-				}
-				res[i] = "panic msg=\"process died\" out=" + strconv.Quote(truncate(string(out), 1500))
+				first = i
 				break
 			}
 		}
-		for i := range res {
-			if res[i] == "" {
-				res[i] = "not-run"
+		res[first] = "panic msg=\"process died\" out=" + strconv.Quote(truncate(string(out), 1500))
+		if first+1 < len(cases) {
+			rest, err := runNative(verif, repo, h, u, ovPaths, cases[first+1:], bounds)
+			if err != nil {
+				return nil, err
 			}
+			copy(res[first+1:], rest)
 		}
 	}
-	_ = runErr
 	return res, nil
 }
 
